@@ -141,3 +141,41 @@ pub fn cmd_dump(args: &[String]) -> i32 {
     std::fs::write(&args[5], serde_json::to_string(&d).unwrap()).unwrap();
     0
 }
+
+/// `vh lib-search <seed> <n notes> <out.ndjson>`: what global_search returns for several queries,
+/// next to the full listing it was chosen from with the fuzzy scores (C18: cap and documented order)
+pub fn cmd_search(args: &[String]) -> i32 {
+    use fuzzy_matcher::skim::SkimMatcherV2;
+    use fuzzy_matcher::FuzzyMatcher;
+    use std::io::Write;
+    let seed: u64 = args[0].parse().unwrap();
+    let n: usize = args[1].parse().unwrap();
+    let lib = gen_library(seed, n);
+    let state: HashMap<String, String> = lib.into_iter().collect();
+    let db = Database::new(state, false, MarkdownOptions::default());
+    let all = db.graph().search_paths();
+    let matcher = SkimMatcherV2::default();
+    let mut out = std::io::BufWriter::new(std::fs::File::create(&args[2]).expect("out"));
+    for q in ["", "Title 1", "Same title", "Section 0", "Twin", "zzzz", "t"] {
+        let listing: Vec<Value> = all
+            .iter()
+            .map(|p| json!({"score": matcher.fuzzy_match(&p.search_text, q).unwrap_or(0), "len": p.search_text.len(), "rank": p.node_rank}))
+            .collect();
+        let mut used = vec![false; all.len()];
+        let mut idx: Vec<i64> = vec![];
+        for r in db.global_search(q) {
+            // which entry of the listing is this (same text, key, line; each used once)
+            let hit = all.iter().enumerate().position(|(i, p)| !used[i] && p.search_text == r.search_text && p.key == r.key && p.line == r.line && p.node_rank == r.node_rank);
+            match hit {
+                Some(i) => {
+                    used[i] = true;
+                    idx.push(i as i64 + 1);
+                }
+                None => idx.push(-1),
+            }
+        }
+        writeln!(out, "{}", json!({"ev":"Search","seed":seed,"notes":n,"query":q,"empty":q.is_empty(),"all":listing,"returned":idx})).unwrap();
+    }
+    out.flush().unwrap();
+    0
+}
